@@ -8,6 +8,8 @@ import (
 	"io"
 	"os"
 	"sort"
+	"sync"
+	"sync/atomic"
 	"time"
 
 	"perkeep.org/pkg/blob"
@@ -42,6 +44,8 @@ func (o Op) String() string {
 		s += fmt.Sprintf("@%d+%d", o.Off, o.Len)
 	case "enum", "page":
 		s += fmt.Sprintf("(after=%q,limit=%d)", o.After, o.Limit)
+	case "enumall":
+		s += "(blobserver.EnumerateAll)"
 	}
 	return s
 }
@@ -54,8 +58,12 @@ type Result struct {
 	Data    []byte          // fetch / sub
 	ReadErr error           // error while reading the body
 	Stat    []blob.SizedRef // stat (in callback order)
-	Enum    []blob.SizedRef // enum / page (concatenated pages)
+	Enum    []blob.SizedRef // enum / page / enumall (concatenated pages)
 	Pages   int
+	// enumall: calls of the callback that began after blobserver.EnumerateAll
+	// had returned (read at quiescence: the helper must not return while its
+	// callback may still be called)
+	Late *atomic.Int32
 	// Call/Return are the global event sequence numbers around the call.
 	Call, Return uint64
 }
@@ -155,6 +163,30 @@ func ExecOp(ctx context.Context, sto blobserver.Storage, pool []*TBlob, op Op) (
 			}
 			after = page[len(page)-1].Ref.String()
 		}
+	case "enumall":
+		// the helper every full scan uses (sync, validation, reindex), with a
+		// callback slower than the enumerator
+		var returned atomic.Bool
+		res.Late = new(atomic.Int32)
+		var mu sync.Mutex
+		var got []blob.SizedRef
+		err := blobserver.EnumerateAll(ctx, sto, func(sb blob.SizedRef) error {
+			if returned.Load() {
+				res.Late.Add(1)
+				return nil
+			}
+			simcore.Yield("enumall.callback")
+			mu.Lock()
+			got = append(got, sb)
+			mu.Unlock()
+			return nil
+		})
+		returned.Store(true)
+		mu.Lock()
+		res.Enum = append([]blob.SizedRef(nil), got...)
+		mu.Unlock()
+		res.Err = err
+		res.Pages = 1
 	case "remove":
 		refs := make([]blob.Ref, len(op.B))
 		for i, bi := range op.B {
